@@ -411,6 +411,42 @@ def wakeup_check(ctx):
     return ok
 
 
+def timer_wakeup_check(ctx, where='ir_code.Timer'):
+    """The timer worker sleeps until the earliest deadline it knew when it went to sleep; a timer that starts meanwhile - with an
+    EARLIER deadline (a key of a protocol with a shorter repeat timeout) - must wake it, or that key is released late and the
+    dispatcher goes on holding it.  Contract of TimerThreadWorker.add on the real class: with one timer already queued and the
+    worker asleep (wake-up flag cleared), queuing another timer sets the flag."""
+    from pyIRDecoder import ir_code
+    tw = ir_code._timer_thread_worker
+    vlib.drain_workers()
+    saved = (tw.queue, tw.queue_event)
+    ev = _FlagEvent()
+    ok = False
+    try:
+        tw.queue = []
+        tw.queue_event = ev
+        CLOCK[0] = 0
+        t_long = ir_code.Timer(lambda: None, 200000)
+        t_long.start(FakeElapsed(0))           # queued by start(): the worker would now sleep towards this deadline
+        ev.clear()                             # ... it has taken the wake-up and sleeps
+        t_short = ir_code.Timer(lambda: None, 40000)
+        t_short.start(FakeElapsed(0))
+        ok = ev.is_set() and len(tw.queue) == 2
+        detail = 'flag=%s queue=%d' % (ev.is_set(), len(tw.queue))
+    except Exception as e:  # noqa
+        detail = 'raised ' + type(e).__name__
+    finally:
+        tw.queue, tw.queue_event = saved
+        vlib.drain_workers()
+    ctx.count_eval(key=('timer-wakeup', ok))
+    ctx.obligation('fact: a timer started while the worker sleeps towards a later deadline wakes the worker', ok, None if ok else detail)
+    if not ok:
+        ctx.report('thread_worker.TimerThreadWorker', 'a timer started while the worker sleeps towards a later deadline does not wake it',
+                   dict(), dict(schedule='Timer(200 ms).start(); worker sleeps; Timer(40 ms).start()', observed=detail,
+                                consequence='the second key is released (and forgotten by the dispatcher) only when the first deadline passes'))
+    return ok
+
+
 def run(ctx):
     vlib.import_repo()
     vlib.ensure_static_build()
@@ -420,7 +456,8 @@ def run(ctx):
     ctx.obligation('fact: Timer.run_func disarms the timer when it fires (hypothesis of timer_conservation)', dof,
                    None if dof else 'run_func leaves self.timer set after queuing the release')
     wk = wakeup_check(ctx)
-    ctx.extra['facts'] = dict(disarm_on_fire=dof, no_lost_wakeup=wk)
+    twk = timer_wakeup_check(ctx)
+    ctx.extra['facts'] = dict(disarm_on_fire=dof, no_lost_wakeup=wk, timer_start_wakes_worker=twk)
     # ---- correspondence of the Timer model
     rng = ctx.rng
     words = [gen_timer_word(rng, rng.randint(1, 3), rng.randint(3, 10)) for _ in range(400 if ctx.tier == 'quick' else 6000)]
